@@ -15,6 +15,7 @@ from rules.common import *
 from rules.order import call_pred, sites, ok_cut
 import findom
 
+TECHNIQUE = ('static analysis over rustc MIR: finite-domain evaluation of cacheability predicates over FileType x cacheable across sibling methods, authoritative-result provenance (backend result returned on every path), cache-error non-propagation, temp-name / rename sequence of cache writes')
 LEVEL = "other"
 EXHAUSTIVE = True
 EXPLANATION = (
